@@ -70,6 +70,7 @@ func main() {
 	full := flag.Bool("full", false, "keep schedules in results")
 	deep := flag.Bool("deep", false, "deeper bounds (thorough tier): larger expressions, more files, tasks and ops")
 	pb1 := flag.Int("pb1", 0, "bounded systematic search: run each generated case under every single-preemption schedule (at most this many runs per case)")
+	pb2 := flag.Int("pb2", 0, "bounded systematic search, two preemptions placed at boosted decision points (at most this many runs per case)")
 	noRetain := flag.Bool("noretain", false, "force every case into the mode in which pools retain nothing")
 	emitCase := flag.Bool("emitcase", false, "attach the generated case to every result")
 	flag.Parse()
@@ -123,6 +124,17 @@ func main() {
 				os.Exit(3)
 			}
 			emit(line{Ev: "pb1", I: i, Seed: seed, Profile: p, PB: n})
+			continue
+		}
+		if *pb2 > 0 {
+			small(c)
+			n, fr := runPB2(c, *pb2)
+			if fr != nil {
+				c.Sched = SchedM{Strategy: "replay", Seed: c.Sched.Seed, Replay: fr.Stats.Schedule}
+				emit(line{Ev: "end", I: i, Seed: seed, Profile: p, Res: fr, Case: c, PB: n})
+				os.Exit(3)
+			}
+			emit(line{Ev: "pb2", I: i, Seed: seed, Profile: p, PB: n})
 			continue
 		}
 		r := runCase(c)
